@@ -3,6 +3,7 @@ package main
 import (
 	"errors"
 	"fmt"
+	"math/rand"
 	"strings"
 	"sync"
 	"sync/atomic"
@@ -355,28 +356,43 @@ func runCaseEnabled(node gen.Node, helperPID gen.PID, c Case) (Result, [][]int) 
 		}
 	}
 	// completion
+	var prng *rand.Rand
+	if strings.HasPrefix(c.Policy, "random:") {
+		var sd int64
+		fmt.Sscanf(c.Policy, "random:%d", &sd)
+		prng = rand.New(rand.NewSource(sd))
+	}
 	for guard := 0; guard < 5000; guard++ {
 		next := -1
 		sch.mu.Lock()
-		switch c.Policy {
-		case "highest":
-			for i := len(sch.threads) - 1; i >= 0; i-- {
-				if sch.threads[i].parked && !sch.threads[i].done {
-					next = i
-					break
-				}
-			}
-		default:
-			for i, t := range sch.threads {
-				if t.parked && !t.done {
-					next = i
-					break
-				}
+		var en []int
+		for i, t := range sch.threads {
+			if t.parked && !t.done {
+				en = append(en, i)
 			}
 		}
 		sch.mu.Unlock()
-		if next < 0 {
+		if len(en) == 0 {
 			break
+		}
+		switch {
+		case prng != nil:
+			next = en[prng.Intn(len(en))]
+		case c.Policy == "highest":
+			next = en[len(en)-1]
+		case c.Policy == "nonpreempt":
+			// keep running the thread that ran last while it is enabled, else the lowest
+			next = en[0]
+			if len(res.Full) > 0 {
+				last := res.Full[len(res.Full)-1]
+				for _, e := range en {
+					if e == last {
+						next = last
+					}
+				}
+			}
+		default:
+			next = en[0]
 		}
 		if !step(next) {
 			return fail(sch.stalled)
